@@ -22,6 +22,9 @@ func init() {
 		replay: func(c *Ctx, lines []string) {
 			s := &seqState{}
 			for _, l := range lines {
+				if strings.HasPrefix(l, "!obs") {
+					continue // regenerated after the operation it belongs to
+				}
 				s.op(c, l)
 			}
 		},
@@ -32,6 +35,9 @@ func init() {
 		replay: func(c *Ctx, lines []string) {
 			s := &seqState{}
 			for _, l := range lines {
+				if strings.HasPrefix(l, "!obs") {
+					continue // regenerated after the operation it belongs to
+				}
 				s.op(c, l)
 			}
 		},
@@ -231,6 +237,21 @@ func (s *seqState) op(c *Ctx, line string) {
 		}
 	}
 	c.Emit(line, ans, false)
+	// oracle line: what the real queue just did, judged by the FIFO specification (a quiescent
+	// queue must hand a queued command to a polling writer and must find the reply slot of a
+	// command that is in flight, in FIFO order)
+	if ans != "block" {
+		switch w[0] {
+		case "put", "putm":
+			c.Emit(fmt.Sprintf("!obs put %d", s.next-1), "ok", false)
+		case "next", "wait", "res":
+			obs := "nil"
+			if strings.HasPrefix(ans, "cmd:") {
+				obs = "cmd " + strings.Split(ans, ":")[1]
+			}
+			c.Emit(fmt.Sprintf("!obs %s %s", w[0], obs), "ok", false)
+		}
+	}
 }
 
 // ringCondVars inspects (by reflection, read-only) how many distinct condition variables a
